@@ -29,11 +29,14 @@ inductive Err where | ValueError | AssertionError
 def Err.name : Err → String
   | .ValueError => "ValueError" | .AssertionError => "AssertionError"
 
-/-- `tok[lo:lo+w] = v` -/
-def put (lo w : Nat) (v : Int) (tok : Nat) : Except Err Nat :=
-  if v ≥ ((2 ^ w : Nat) : Int) then .error .ValueError
-  else if v < -((2 ^ w : Nat) : Int) then .error .AssertionError
-  else .ok (tok - (tok / 2 ^ lo % 2 ^ w) * 2 ^ lo + (v % ((2 ^ w : Nat) : Int)).toNat * 2 ^ lo)
+/-- `tok[lo:lo+w] = v`.  The token value is kept as an `Int` (it is always `≥ 0`) so that the whole
+    encoder is integer arithmetic with literal divisors. -/
+def put (lo w : Nat) (v : Int) (tok : Int) : Except Err Int :=
+  let limit : Int := ((2 ^ w : Nat) : Int)
+  let shift : Int := ((2 ^ lo : Nat) : Int)
+  if v ≥ limit then .error .ValueError
+  else if v < -limit then .error .AssertionError
+  else .ok (tok - (tok / shift % limit) * shift + (v % limit) * shift)
 
 structure Ops where
   a : Nat := 0
@@ -45,7 +48,7 @@ structure Ops where
 /-! ### token layouts written through named fields (`patterns` dicts, in dict order) -/
 
 /-- `RiscvToken` patterns: opcode, rd, funct3, rs1, rs2, funct7 -/
-def pR (opc rd f3 rs1 rs2 f7 : Int) : Except Err Nat := do
+def pR (opc rd f3 rs1 rs2 f7 : Int) : Except Err Int := do
   let t ← put 0 7 opc 0
   let t ← put 7 5 rd t
   let t ← put 12 3 f3 t
@@ -54,7 +57,7 @@ def pR (opc rd f3 rs1 rs2 f7 : Int) : Except Err Nat := do
   put 25 7 f7 t
 
 /-- `RiscvIToken` patterns / I-shaped `encode()`s: opcode, rd, funct3, rs1, imm -/
-def pI (opc rd f3 rs1 imm : Int) : Except Err Nat := do
+def pI (opc rd f3 rs1 imm : Int) : Except Err Int := do
   let t ← put 0 7 opc 0
   let t ← put 7 5 rd t
   let t ← put 12 3 f3 t
@@ -62,18 +65,18 @@ def pI (opc rd f3 rs1 imm : Int) : Except Err Nat := do
   put 20 12 imm t
 
 /-- U-shaped `encode()`s: `[0:7]`, `[7:12]`, `[12:32]` -/
-def pU (opc rd imm : Int) : Except Err Nat := do
+def pU (opc rd imm : Int) : Except Err Int := do
   let t ← put 0 7 opc 0
   let t ← put 7 5 rd t
   put 12 20 imm t
 
 /-- `Bl`/`B`/`CBl`/`CB`: `[0:7]`, `[7:12]` only -/
-def pJ (opc rd : Int) : Except Err Nat := do
+def pJ (opc rd : Int) : Except Err Int := do
   let t ← put 0 7 opc 0
   put 7 5 rd t
 
 /-- `BranchBase.encode` -/
-def pB (cond : Int) (invert : Bool) (rn rm : Int) : Except Err Nat := do
+def pB (cond : Int) (invert : Bool) (rn rm : Int) : Except Err Int := do
   let t ← put 0 7 0x63 0
   let t ← put 12 3 cond t
   if invert then do
@@ -84,7 +87,7 @@ def pB (cond : Int) (invert : Bool) (rn rm : Int) : Except Err Nat := do
     put 20 5 rm t
 
 /-- `StrBase.encode` -/
-def pS (func rs1 rs2 offset : Int) : Except Err Nat := do
+def pS (func rs1 rs2 offset : Int) : Except Err Int := do
   let imml5 := offset % 32
   let immh7 := offset / 32 % 128
   let t ← put 0 7 0x23 0
@@ -166,24 +169,24 @@ def Cls.size (c : Cls) : Nat := if c.isC then 2 else 4
 /-! ### encoders -/
 
 /-- `make_regregreg(mnemonic, opcode=f7, func=f3)` -/
-def regregreg (f7 f3 : Int) (o : Ops) : Except Err Nat := pR 0x33 o.a f3 o.b o.c f7
+def regregreg (f7 f3 : Int) (o : Ops) : Except Err Int := pR 0x33 o.a f3 o.b o.c f7
 /-- `make_si(mnemonic, code=f7, func=f3)`: the shift amount goes through the `rs2` field -/
-def si (f7 f3 : Int) (o : Ops) : Except Err Nat := pR 0x13 o.a f3 o.b o.imm f7
+def si (f7 f3 : Int) (o : Ops) : Except Err Int := pR 0x13 o.a f3 o.b o.imm f7
 /-- `IBase.encode` with `func` -/
-def ibase (func : Int) (o : Ops) : Except Err Nat := pI 0x13 o.a func o.b (o.imm % 4096)
+def ibase (func : Int) (o : Ops) : Except Err Int := pI 0x13 o.a func o.b (o.imm % 4096)
 /-- `SmBase.encode` with `code` -/
-def sm (code : Int) (o : Ops) : Except Err Nat := pI 0x73 o.a 2 0 code
+def sm (code : Int) (o : Ops) : Except Err Int := pI 0x73 o.a 2 0 code
 /-- `make_ldr(mnemonic, func)` (declarative, `RiscvIToken`) -/
-def ldr (func : Int) (o : Ops) : Except Err Nat := pI 0x03 o.a func o.b o.imm
+def ldr (func : Int) (o : Ops) : Except Err Int := pI 0x03 o.a func o.b o.imm
 /-- `make_str(mnemonic, func)`: operands `rs2, offset, rs1` -/
-def str (func : Int) (o : Ops) : Except Err Nat := pS func o.b o.a o.imm
+def str (func : Int) (o : Ops) : Except Err Int := pS func o.b o.a o.imm
 /-- `MextBase.encode` with `func`: syntax order `rd, rs1, rs2` -/
-def mext (func : Int) (o : Ops) : Except Err Nat := pR 0x33 o.a func o.b o.c 1
+def mext (func : Int) (o : Ops) : Except Err Int := pR 0x33 o.a func o.b o.c 1
 /-- `make_csrwi(mnemonic, func)`: patterns opcode, rd=0, funct3, rs1=imm, imm=csr -/
-def csrwi (func : Int) (o : Ops) : Except Err Nat := pI 0x73 0 func o.imm o.a
+def csrwi (func : Int) (o : Ops) : Except Err Int := pI 0x73 0 func o.imm o.a
 
 /-- `OpcRegReg.encode` with `func` -/
-def cRegReg (func : Int) (o : Ops) : Except Err Nat := do
+def cRegReg (func : Int) (o : Ops) : Except Err Int := do
   let t ← put 0 2 1 0
   let t ← put 2 3 ((o.b : Int) - 8) t
   let t ← put 5 2 func t
@@ -191,7 +194,7 @@ def cRegReg (func : Int) (o : Ops) : Except Err Nat := do
   put 10 6 0x23 t
 
 /-- `CiBase.encode` with `func` (operands `rd, rs, imm`; `rs` is not encoded) -/
-def cI (func : Int) (o : Ops) : Except Err Nat := do
+def cI (func : Int) (o : Ops) : Except Err Int := do
   let t ← put 0 2 1 0
   let t ← put 2 5 (o.imm % 32) t
   let t ← put 7 3 ((o.a : Int) - 8) t
@@ -200,7 +203,7 @@ def cI (func : Int) (o : Ops) : Except Err Nat := do
   put 13 3 4 t
 
 /-- the offset scrambling of `CLw`/`CSw` -/
-def cLS (f3 : Int) (rdOrRs2 rs1 : Nat) (offset : Int) : Except Err Nat := do
+def cLS (f3 : Int) (rdOrRs2 rs1 : Nat) (offset : Int) : Except Err Int := do
   let t ← put 0 2 0 0
   let t ← put 2 3 ((rdOrRs2 : Int) - 8) t
   let t ← put 5 1 (offset / 64 % 2) t
@@ -209,7 +212,7 @@ def cLS (f3 : Int) (rdOrRs2 rs1 : Nat) (offset : Int) : Except Err Nat := do
   let t ← put 10 3 (offset / 8 % 8) t
   put 13 3 f3 t
 
-def enc (c : Cls) (o : Ops) : Except Err Nat :=
+def enc (c : Cls) (o : Ops) : Except Err Int :=
   match c with
   | .Movr => pR 0x13 o.a 0 o.b 0 0
   | .Csrs => pI 0x73 0 2 o.b o.a
@@ -352,7 +355,7 @@ def bytesLE : Nat → Nat → List Nat
   | 0, _ => []
   | n + 1, v => v % 256 :: bytesLE n (v / 256)
 
-def encodeBytes (c : Cls) (o : Ops) : Except Err (List Nat) := (enc c o).map (bytesLE c.size)
+def encodeBytes (c : Cls) (o : Ops) : Except Err (List Nat) := (enc c o).map (fun w => bytesLE c.size w.toNat)
 
 /-! ### what each class prints (`Syntax.render`), tokenised: mnemonic, then the operands in printed
     order; separators (blank, comma, parentheses, `%pcrel_hi(`…`)`) dropped; a label ↦ `imm 0` -/
